@@ -566,21 +566,15 @@ func (t *Terminal) handleKey(key rune) (line []string, ok bool) {
 		t.advanceCursor(visualLength(t.prompt))
 		t.setLine(t.line, t.pos)
 	case keyEnter:
-		strline := strings.TrimSpace(string(t.line))
+		// split string until queries terminated by ;
+		stmts, rest := splitStatements(t.line)
 		// if the last thing entered was a query terminator
-		if len(strline) == 0 || strline[len(strline)-1:] == ";" {
+		if len(strings.TrimSpace(string(t.line[rest:]))) == 0 {
 			// not sure what this is for
 			t.moveCursorToPos(len(t.line))
 			t.queue([]rune("\r\n"))
 
-			// split string until queries terminated by ;
-			begin := 0
-			for cur := 0; cur < len(t.line); cur++ {
-				if t.line[cur] == 59 {
-					line = append(line, strings.TrimSpace(string(t.line[begin:cur+1])))
-					begin = cur + 1
-				}
-			}
+			line = append(line, stmts...)
 
 			ok = true
 			t.line = t.line[:0]
@@ -623,6 +617,30 @@ func (t *Terminal) handleKey(key rune) (line []string, ok bool) {
 		t.addKeyToLine(key)
 	}
 	return
+}
+
+// splitStatements cuts line after every semicolon that terminates a
+// statement, i.e. that is not part of a quoted literal or identifier. It
+// returns the statements and the position where the unterminated rest of the
+// line begins.
+func splitStatements(line []rune) (stmts []string, rest int) {
+	var quote rune // the quote character of the literal being read, or 0
+	for cur := 0; cur < len(line); cur++ {
+		switch c := line[cur]; {
+		case quote != 0:
+			if c == '\\' {
+				cur++ // skip the escaped character
+			} else if c == quote {
+				quote = 0
+			}
+		case c == '\'' || c == '"' || c == '`':
+			quote = c
+		case c == ';':
+			stmts = append(stmts, strings.TrimSpace(string(line[rest:cur+1])))
+			rest = cur + 1
+		}
+	}
+	return stmts, rest
 }
 
 // addKeyToLine inserts the given key at the current position in the current
